@@ -63,6 +63,33 @@ func collectLookup(sm *Summary) lookupFacts {
 
 func nilSym() *Sym { return &Sym{K: sConst, C: nil} }
 
+// receiverPointer: the pointerstructure.Pointer a Get is applied to, as a struct value: a tracked local of the lookup, or
+// the result of Pointer.Parent() on one (documented: the same Config, all parts but the last).
+func receiverPointer(sm *Summary, ev Event) *Sym {
+	if len(ev.Deref) > 0 && ev.Deref[0] != nil {
+		return ev.Deref[0]
+	}
+	if len(ev.Args) == 0 {
+		return nil
+	}
+	fn, _ := calleeOfSym(ev.Args[0])
+	if !isCallTo(fn, "github.com/mitchellh/pointerstructure", "Parent") {
+		return nil
+	}
+	for _, pe := range sm.Events() {
+		if pe.Res != nil && pe.Res.Key() == ev.Args[0].Key() && len(pe.Deref) > 0 && pe.Deref[0] != nil {
+			d0 := pe.Deref[0]
+			p0 := getPath(d0, []string{"Parts"})
+			if p0 == nil {
+				return nil
+			}
+			parts := &Sym{K: sSlice, A: p0, Str: "const(0):bin(-,len(" + p0.Key() + "),const(1))"}
+			return &Sym{K: sStruct, A: nil, F: map[string]*Sym{"Parts": parts, "Config": getPath(d0, []string{"Config"})}}
+		}
+	}
+	return nil
+}
+
 func checkValueLookup(r *Run, prog *Program, a *Anchors, pfx string) {
 	fn := a.GetValue
 	r.Analysed(fn.String())
@@ -74,9 +101,13 @@ func checkValueLookup(r *Run, prog *Program, a *Anchors, pfx string) {
 	pOpt := paramSym(fn.Params[2])
 	ps := NewPathSim(prog)
 	ps.Inline = func(c *ssa.Function) bool {
-		// the helper that decides "is the parent a map": module function returning one bool
-		return prog.InModule(c) && c != a.GetOpts && c.Signature.Results().Len() == 1 && isBool(c.Signature.Results().At(0).Type())
+		// the helper that decides "is the parent a map" and any other unexported helper the lookup is split into
+		if prog.InModule(c) && c != a.GetOpts && c.Signature.Results().Len() == 1 && isBool(c.Signature.Results().At(0).Type()) {
+			return true
+		}
+		return bexprHelper(prog, a, c) && !recursive(prog, c)
 	}
+	ps.MaxDepth = 4
 	sums := ps.Run(fn)
 	if len(sums) == 0 {
 		r.Fail("undecided", pfx+".lookup", "paths", prog.pos(fn.Pos()), "no path summaries")
@@ -116,7 +147,7 @@ func checkValueLookup(r *Run, prog *Program, a *Anchors, pfx string) {
 		}
 		optsSym := lf.getOpts.Res
 		cfgOK := func(ev Event) (bool, string) {
-			d := ev.Deref[0]
+			d := receiverPointer(sm, ev)
 			if d == nil {
 				return false, "receiver of the lookup is not a tracked local"
 			}
@@ -203,7 +234,7 @@ func checkValueLookup(r *Run, prog *Program, a *Anchors, pfx string) {
 			g2 := lf.gets[1]
 			okc2, why2 := cfgOK(g2)
 			// same Config as lookup 1, Parts = all but the last
-			d1, d2 := g1.Deref[0], g2.Deref[0]
+			d1, d2 := receiverPointer(sm, g1), receiverPointer(sm, g2)
 			if okc2 && d1 != nil && d2 != nil {
 				p1 := getPath(d1, []string{"Parts"})
 				p2 := getPath(d2, []string{"Parts"})
@@ -262,9 +293,17 @@ func checkValueLookup(r *Run, prog *Program, a *Anchors, pfx string) {
 		r.Note("value lookup: %d paths cut by the loop bound", ps.Truncated)
 	}
 	// the unknown value is read nowhere else on the evaluation path
+	partOfLookup := map[*ssa.Function]bool{fn: true}
+	for _, sm := range sums {
+		for _, ev := range sm.Events() {
+			if ev.Inlined && ev.Callee != nil {
+				partOfLookup[ev.Callee] = true // judged above, as part of the lookup's paths
+			}
+		}
+	}
 	for _, fa := range prog.FieldAccesses(prog.ModuleFuncs()) {
 		if fa.Struct == optRoles(prog).optionsT && fa.Field == optField(prog, "WithUnknownValue") && fa.Kind == "read" {
-			okR := fa.Fn == fn || fa.Fn == a.CreateEv
+			okR := partOfLookup[fa.Fn] || !a.EvalSet[fa.Fn]
 			r.Check(pfx+".unknown-read-sites", fa.Fn.Name()+":read:withUnknown", prog.pos(fa.Instr.Pos()), okR, "the unknown value is read outside the ErrNotFound branch of the value lookup (and outside CreateEvaluator's copy)")
 		}
 	}
@@ -279,6 +318,7 @@ func checkQuantifierAbsent(r *Run, prog *Program, a *Anchors, pfx string) {
 		sc := sc
 		ps := NewPathSim(prog)
 		var gerr *Sym
+		ps.Inline = func(c *ssa.Function) bool { return bexprHelper(prog, a, c) && !isBoolErr(c.Signature) }
 		ps.Model = func(ev *Event) *Sym {
 			if ev.Callee == a.GetValue {
 				var e *Sym = nilSym()
@@ -307,6 +347,14 @@ func checkQuantifierAbsent(r *Run, prog *Program, a *Anchors, pfx string) {
 					want = (&Sym{K: sCmp, Op: token.EQL, A: loadField(pExpr, "Op"), B: &Sym{K: sConst, C: c.Val()}}).Key()
 				}
 				ok = b.Key() == want && e.IsNil() && bodyCalls == 0
+				if bv, isC := b.BoolConst(); isC && !ok && e.IsNil() && bodyCalls == 0 {
+					// the same value computed by cases: the constant returned is the truth of Op == ALL on this path
+					if c, okc := allC.(interface{ Val() constant.Value }); okc {
+						if v, known := evalBool(sm.St, &Sym{K: sCmp, Op: token.EQL, A: loadField(pExpr, "Op"), B: &Sym{K: sConst, C: c.Val()}}); known && v == bv {
+							ok = true
+						}
+					}
+				}
 				why = "an absent collection must give (Op == ALL, nil) — all true, any false — without evaluating the body; got (" + b.Key() + ", " + e.Key() + "), body evaluations=" + fmt.Sprint(bodyCalls)
 			} else {
 				bv, okc := b.BoolConst()
